@@ -10,7 +10,7 @@ from harness import core, py2lean, instantiate
 from harness.core import Outcome, f2b, b2f
 
 ID = "C11"
-LEAN_TARGETS = ["BeyondVerif.Props.C11", "BeyondVerif.Props.C11Mask", "BeyondVerif.Props.C11MaskLife", "BeyondVerif.Witness.C11"]
+LEAN_TARGETS = ["BeyondVerif.Props.C11", "BeyondVerif.Props.C11Mask", "BeyondVerif.Props.C11MaskLife", "BeyondVerif.Props.C11Names", "BeyondVerif.Witness.C11"]
 THEOREMS = [
     "BeyondVerif.C11.earth_constants",
     "BeyondVerif.C11.station_on_ellipsoid_partial",
@@ -44,6 +44,12 @@ THEOREMS = [
     "BeyondVerif.C11.mask_assignment_replaces_table",
     "BeyondVerif.C11.mask_after_any_history_is_pwl_interp",
     "BeyondVerif.C11.mask_given_at_creation_is_pwl_interp",
+    "BeyondVerif.C11.station_longitude_plus_360",
+    "BeyondVerif.C11.station_longitude_minus_360",
+    "BeyondVerif.C11.lookup_after_create",
+    "BeyondVerif.C11.lookup_other_name_unaffected",
+    "BeyondVerif.C11.use_keeps_registry",
+    "BeyondVerif.C11.recreated_station_is_the_new_station",
     "BeyondVerif.C11W.earth_radius_is_not_wgs84",
     "BeyondVerif.C11W.mask_given_as_ndarray_is_stored",
 ]
@@ -57,7 +63,9 @@ LEVEL_TEXT = ("Lean theorems over R about formulas translated from the Python so
               "tables ending at 2 pi and all azimuths; the way from the table GIVEN to the table read is inside the model: the `mask=` handling of "
               "TopocentricFrame.__init__ and create_station is translated from the source (a list/tuple of rows or a 2xN ndarray is stored unchanged), a state machine "
               "describes assignment, in-place writes and reads of station.mask, and for every creation argument and every history whose current table "
-              "follows the convention the next read is the interpolant of that table (reads keep nothing, change nothing).")
+              "follows the convention the next read is the interpolant of that table (reads keep nothing, change nothing); a station name stands for the coordinates of "
+              "its last creation (registry state machine: after any history, create_station(name, coords) then a change to the frame of that name gives position and axes of "
+              "the new coordinates, other names unaffected); a longitude L and L +- 360 deg give the same position and axes.")
 LEVEL_NOTE = ("R -> double gap covered only by tolerance-bounded correspondence; the control flow of get_mask (extraction refuses another statement shape), "
               "the attribute semantics of station.mask (plain attribute: checked on the class bodies), Python truth values / np.asarray of the mask argument, "
               "frame-change plumbing (centre offset, inverse) and expand() are hand-modelled and tied by correspondence (real station objects driven through "
@@ -66,7 +74,8 @@ LEVEL_NOTE = ("R -> double gap covered only by tolerance-bounded correspondence;
 TECHNIQUE = "Lean 4 proof (ring/field_simp/trig identities; list induction over the mask scan loop) over formulas regenerated from the Python AST; differential correspondence"
 TRUSTED = [
     "harness/py2lean.py + the extraction code of harness/props/C11.py: translate the source expressions into Generated/StationGeo{F,R}.lean on every run",
-    "lean/templates/Station.tpl (hand-written: frame change M^-1 (r - s) with M^-1 = M^T, control flow of the get_mask scan loop, the state machine of station.mask, expand()), tied by the correspondence run",
+    "lean/templates/Station.tpl (hand-written: frame change M^-1 (r - s) with M^-1 = M^T, control flow of the get_mask scan loop, the state machine of station.mask, "
+    "the registry of station names (hooks, links and frames.dynamic keyed by name, each creation overriding), expand()), tied by the correspondence run",
     "the hand-written semantic primitives of the generated mask path (MASK_PRELUDE in harness/props/C11.py: Python's bool() of None / sequences / ndarrays, np.asarray of a sequence of two rows) and the encoding of a 2xN table as a list of columns",
     "numpy / libm double arithmetic vs R: tolerance 1e-9 relative (angles 1e-10 rad scaled by conditioning)",
     "numpy semantics: `@` is the matrix product, np.linalg.inv of an orthonormal matrix is its transpose, `x in array` / np.where(==) is float equality, float % is floored modulo",
@@ -98,11 +107,14 @@ RULE = ("correspondence: stations on a lat/lon/alt grid (all quadrants, near-pol
         "maskrun (a station created with mask= None / omitted / [] / () / list / tuple / rows of arrays / numpy scalars / int elevations / ndarray, keyword or positional, through "
         "create_station or TopocentricFrame, parent frame default/WGS84/ITRF/PEF/TIRF, equatorial or not, then a history of assignments (4 array layouts), None, in-place column writes, "
         "writes into the caller's own list, reads incl. azimuths asked before; replies and stored tables vs the state machine). Stations of the sweep are created with every option too. "
+        "reg (histories of creations and RE-creations under 1-3 names, at other / at the same coordinates, interleaved; every live name used through the object and through its name after each creation, vs the registry model). "
+        "Station coordinates: signed and 0..360 east longitudes, exactly 0/180/-180/360, beyond one turn, the poles, altitudes from -11 km to geostationary height. "
         "non-trivial = generic input (not an edge constant); "
         "distinct = distinct request line. oracle: independent ENU computation in extended precision on the real API, ellipsoid membership/normal, rest in ITRF/PEF/TIRF, "
         "omega x r and finite differences in inertial frames, measures vs ENU quantities, "
         "station position/axes for every numeric kind of coordinates incl. narrow numpy dtypes, mask vs independent interpolation for tables assigned, given at creation "
-        "(12 kinds of object x 4 entry points, round robin), re-assigned, written in place; parent frames; equatorial stations")
+        "(12 kinds of object x 4 entry points, round robin), re-assigned, written in place; parent frames; equatorial stations; longitude L vs L +- 360 k; "
+        "histories of stations re-created under names in use (each live name vs ENU at its last coordinates after every creation)")
 
 TWO_PI = 2 * math.pi
 WGS84_A = 6378137.0
@@ -110,8 +122,10 @@ WGS84_INVF = 298.257223563
 
 
 def _setup():
+    import logging
     from beyond.config import config
     config.set("eop", "missing_policy", "pass")
+    logging.getLogger("beyond.frames.frames").setLevel(logging.ERROR)     # "A frame with the name … is already registered. Overriding"
 
 
 _counter = itertools.count()
@@ -167,9 +181,9 @@ def typed_coords(kind, lat, lon, alt):
     if kind == "np-uint8-array":
         return np.array([abs(il), io % 256, ia % 256], dtype=np.uint8)
     if kind == "np-int16-array":
-        return np.array([il, io, ia], dtype=np.int16)
+        return np.array([il, max(-32768, min(32767, io)), max(-32768, min(32767, ia))], dtype=np.int16)
     if kind == "np-uint16-array":
-        return np.array([abs(il), io % 360, abs(ia)], dtype=np.uint16)
+        return np.array([abs(il), io % 360, min(65535, abs(ia))], dtype=np.uint16)
     if kind == "np-float32-array":
         return np.array([fl, fo, fa], dtype=np.float32)
     raise ValueError(kind)
@@ -215,7 +229,7 @@ def mask_object(okind, az, el):
     raise ValueError(okind)
 
 
-def new_station(lat_deg, lon_deg, alt, mask=None, kind="float-tuple", mask_given=None, entry="create_station", parent="default", equatorial=False):
+def new_station(lat_deg, lon_deg, alt, mask=None, kind="float-tuple", mask_given=None, entry="create_station", parent="default", equatorial=False, name=None):
     """returns the station created by beyond from coordinates of the given numeric kind; `st.c11_deg` holds the exact
     values (as Python floats) of the coordinates that were passed in.
     mask: assigned AFTER creation (`st.mask = array`).  mask_given = (okind, az, el): handed over AT creation through `entry`
@@ -225,7 +239,7 @@ def new_station(lat_deg, lon_deg, alt, mask=None, kind="float-tuple", mask_given
     from beyond.frames import frames
     from beyond.frames.stations import create_station, TopocentricFrame
     _setup()
-    name = f"C11s{next(_counter)}"
+    name = name or f"C11s{next(_counter)}"       # an explicit name may already be in use: the station is then RE-created under it
     coords = typed_coords(kind, lat_deg, lon_deg, alt)
     vals = [float(c) for c in coords]
     pf = None if parent == "default" else getattr(frames, parent)
@@ -320,11 +334,16 @@ def drop_by_name(name, parent_orientation, parent_center):
 # ---------------------------------------------------------------- input generators
 
 def gen_station(rng, k=None):
-    """(lat_deg, lon_deg, alt, kind)"""
+    """(lat_deg, lon_deg, alt, kind): every quadrant; longitudes in the signed and in the 0..360 east convention, exactly 0 / 180 / -180 / 360,
+    below -180 and above 360 (the code takes any angle); the poles themselves; altitudes from ocean trenches to the geostationary belt"""
     grid = [(0.0, 0.0, 0.0, "equator-greenwich"), (89.999, 10.0, 100.0, "near-north-pole"), (-89.9999, -170.0, 2800.0, "near-south-pole"),
             (43.604482, 1.443962, 172.0, "NE"), (-33.9, 18.4, 20.0, "SE"), (-33.45, -70.66, 570.0, "SW"), (40.7, -74.0, 10.0, "NW"),
             (31.5, 35.5, -400.0, "below-sea-level"), (27.98, 86.92, 8848.0, "high"), (0.0, 180.0, 0.0, "antimeridian"),
-            (-0.0001, 359.9999, 1.0, "lon-near-360"), (65.0, -180.0, 5.0, "lon-minus-180"), (12.0, 270.0, 9000.0, "lon-270")]
+            (-0.0001, 359.9999, 1.0, "lon-near-360"), (65.0, -180.0, 5.0, "lon-minus-180"), (12.0, 270.0, 9000.0, "lon-270"),
+            (28.524, 279.349, 3.0, "lon-0-360-convention"), (39.007, 345.598, 2187.0, "lon-0-360-convention"), (-25.0, 360.0, 50.0, "lon-360"),
+            (51.0, 180.0000001, 10.0, "lon-just-above-180"), (10.0, 400.0, 0.0, "lon-above-360"), (-10.0, -300.0, 0.0, "lon-below-minus-180"),
+            (90.0, 30.0, 10.0, "north-pole"), (-90.0, 200.0, 2835.0, "south-pole"), (11.35, 142.2, -10920.0, "trench"), (5.0, 300.0, 4.0e5, "very-high"),
+            (0.0, 285.0, 3.5786e7, "geostationary-height")]
     if k is not None and k < len(grid):
         return grid[k]
     u = rng.random()
@@ -333,10 +352,18 @@ def gen_station(rng, k=None):
     else:
         lat = math.degrees(math.asin(rng.uniform(-1, 1)))
     lat = max(min(lat, 89.99995), -89.99995)
-    lon = rng.uniform(-180, 360)
-    alt = rng.uniform(-400, 9000)
+    u = rng.random()
+    if u < 0.35:
+        lon, conv = rng.uniform(-180, 180), "signed"
+    elif u < 0.8:
+        lon, conv = rng.uniform(0, 360), "0-360"
+    elif u < 0.9:
+        lon, conv = rng.choice([0.0, 180.0, -180.0, 360.0, 90.0, 270.0, -90.0, 181.0, 359.0]), "exact"
+    else:
+        lon, conv = rng.uniform(-720, 720), "any-turn"
+    alt = rng.uniform(-400, 9000) if rng.random() < 0.9 else rng.choice([-11000.0, 1.0e5, 2.0e7])
     quad = ("N" if lat >= 0 else "S") + ("E" if 0 <= (lon % 360) < 180 else "W")
-    return (lat, lon, alt, "polar-" + quad if abs(lat) > 89 else quad)
+    return (lat, lon, alt, ("polar-" + quad if abs(lat) > 89 else quad) + "-lon-" + conv)
 
 
 def gen_target(rng, spos, up):
@@ -713,7 +740,14 @@ def check_station_state(out, st, inp_s, a, f, lat, lon, alt, date, ref0, skind="
 def check_coords_kind(out, kind, lat_d, lon_d, alt, a, f):
     """create_station(coordinates of the given numeric kind): position and axes vs the reference evaluated on the exact values"""
     import numpy as np
-    st = new_station(lat_d, lon_d, alt, kind=kind)
+    try:
+        st = new_station(lat_d, lon_d, alt, kind=kind)
+    except Exception as e:  # noqa: BLE001
+        vals = [float(c) for c in typed_coords(kind, lat_d, lon_d, alt)]
+        out.count(key=("coords", kind, lat_d, lon_d, alt), kind="station-coordinates", coords=kind)
+        out.fail("station-coordinates-raises-" + kind, f"create_station raises for coordinates given as {kind}", {"latlonalt_deg_m": vals, "coords_kind": kind},
+                 observed=repr(e), expected="a station")
+        return
     lat_d, lon_d, alt = st.c11_deg
     ref = enu_reference(a, f, math.radians(lat_d), math.radians(lon_d), alt, [0, 0, 0], [0, 0, 0])
     pos = np.array([float(c) for c in st.center.offset[:3]])
@@ -896,7 +930,12 @@ def check_equatorial(out, rng, lat_d, lon_d, alt, a, f, date, parent):
     axes of EME2000 — coordinates of a target there are the EME2000 difference target - station"""
     import numpy as np
     from beyond.orbits import StateVector
-    st = new_station(lat_d, lon_d, alt, parent=parent, equatorial=True)
+    try:
+        st = new_station(lat_d, lon_d, alt, parent=parent, equatorial=True)
+    except Exception as e:  # noqa: BLE001
+        out.fail("station-equatorial-raises", "create_station(equatorial=True) raises", {"latlonalt_deg_m": [lat_d, lon_d, alt], "equatorial": True, "parent": parent},
+                 observed=repr(e), expected="a station")
+        return
     try:
         pframe = PARENT_NAME[parent]
         lat_d, lon_d, alt = st.c11_deg
@@ -919,6 +958,103 @@ def check_equatorial(out, rng, lat_d, lon_d, alt, a, f, date, parent):
         drop_station(st)
 
 
+def check_longitude_turns(out, rng, lat_d, lon_d, alt, a, f):
+    """a longitude L and L + 360 k (signed vs 0..360 east convention, any whole number of turns) give the same station:
+    each is compared with the reference evaluated at L"""
+    import numpy as np
+    ref = enu_reference(a, f, math.radians(lat_d), math.radians(lon_d), alt, [0, 0, 0], [0, 0, 0])
+    axes = np.array([[float(c) for c in ref[k]] for k in ("N", "E", "U")])
+    axes[1] = -axes[1]
+    for turn in (1, -1, rng.choice([2, -2, 3])):
+        lon2 = lon_d + 360.0 * turn
+        inp = {"latlonalt_deg_m": [lat_d, lon2, alt], "coords_kind": "float-tuple", "same_as_longitude": lon_d}
+        out.count(key=("lon-turn", lat_d, lon_d, turn), kind="station-longitude-turns", turn=turn, lon_range="above-180" if lon2 > 180 else ("below-minus-180" if lon2 < -180 else "signed"))
+        try:
+            st = new_station(lat_d, lon2, alt)
+        except Exception as e:  # noqa: BLE001
+            out.fail("station-longitude-turns-raises", "create_station raises for a longitude outside [-180, 180]", inp, observed=repr(e), expected="a station")
+            continue
+        pos = np.array([float(c) for c in st.center.offset[:3]])
+        m = np.array(st.orientation._m, dtype=float)
+        drop_station(st)
+        dp = float(np.max(np.abs(pos - np.array([float(c) for c in ref["s"]]))))
+        dm = float(np.max(np.abs(m.T - axes)))
+        if not (dp <= 1e-6 + 2e-15 * abs(turn) * 7e6 * 7 and dm <= 1e-12 + 1e-14 * abs(turn)):
+            out.fail("station-longitude-turns", f"the station created with longitude L{360 * turn:+d} deg is not the station of longitude L (position / north-west-up axes)",
+                     inp, observed={"position": pos.tolist(), "position_error_m": dp, "axes_error": dm}, expected={"position": [float(c) for c in ref["s"]]})
+
+
+def gen_name_history(rng, scenario=None):
+    """a history of creations under a small pool of names: list of [name_key, lat, lon, alt]; scenario: other-coordinates (a name is
+    re-created elsewhere), same-coordinates (re-created at the very same place), interleaved (two or three names, re-creations in between)"""
+    scenario = scenario or rng.choice(["other-coordinates", "other-coordinates", "same-coordinates", "interleaved", "interleaved"])
+    place = lambda: list(gen_station(rng)[:3])
+    if scenario == "other-coordinates":
+        h = [["X"] + place() for _ in range(rng.choice([2, 2, 3]))]
+    elif scenario == "same-coordinates":
+        p0 = place()
+        h = [["X"] + p0, ["X"] + p0] + ([["X"] + place()] if rng.random() < 0.5 else [])
+    else:
+        names = ["X", "Y", "Z"][: rng.choice([2, 3])]
+        h = [[n] + place() for n in names]
+        for _ in range(rng.choice([2, 3, 4])):
+            h.append([rng.choice(names)] + place())
+    return scenario, h
+
+
+def check_name_history(out, rng, a, f, date, history, scenario="", n_tg=3, tag=None):
+    """stations created, and RE-created, under a few names (the registry supports it: "already registered. Overriding"): after every creation each
+    name in use is the station of ITS LAST coordinates — place on the ellipsoid, rest, and range / azimuth / elevation / range-rate / axes / the four
+    measures of targets vs the independent ENU computation there —, reached through the object returned by create_station and through the name."""
+    import numpy as np
+    from beyond.orbits import StateVector
+    tag = tag or f"C11n{next(_counter)}"
+    objs, live, count = [], {}, {}
+    try:
+        for k, (key, lat_d, lon_d, alt) in enumerate(history):
+            hist = [list(h) for h in history[:k + 1]]
+            try:
+                st = new_station(lat_d, lon_d, alt, name=tag + key)
+            except Exception as e:  # noqa: BLE001
+                out.fail("station-recreation-raises" if key in live else "station-creation-raises", "create_station raises", {"latlonalt_deg_m": [lat_d, lon_d, alt], "history": hist},
+                         observed=repr(e), expected="a station")
+                return
+            objs.append(st)
+            live[key] = st
+            count[key] = count.get(key, 0) + 1
+            out.count(key=("names", tag, k), kind="station-names", scenario=scenario, recreated=count[key] > 1)
+            for key2, st2 in live.items():
+                la, lo, al = st2.c11_deg
+                lat, lon = math.radians(la), math.radians(lo)
+                role = "recreated" if count[key2] > 1 else ("beside-recreated" if any(c > 1 for c in count.values()) else "created-once")
+                inp_s = {"latlonalt_deg_m": [la, lo, al], "coords_kind": "float-tuple", "name": key2, "history": hist}
+                ref0 = enu_reference(a, f, lat, lon, al, [0, 0, 0], [0, 0, 0])
+                n0 = len(out.failures)
+                check_station_state(out, st2, inp_s, a, f, lat, lon, al, date, ref0, role, "float-tuple")
+                for _ in range(n_tg):
+                    r, v, tkind = gen_target(rng, [float(c) for c in ref0["s"]], [float(c) for c in ref0["U"]])
+                    check_target(out, st2, inp_s, a, f, lat, lon, al, r, v, date, rng.choice([2, 3, 4]), role, tkind)
+                # through the name: frames.dynamic / get_frame hand out the last creation
+                r, v, tkind = gen_target(rng, [float(c) for c in ref0["s"]], [float(c) for c in ref0["U"]])
+                ref = enu_reference(a, f, lat, lon, al, r, v)
+                t = StateVector(r + v, date, "cartesian", "ITRF").copy(frame=tag + key2, form="spherical")
+                out.count(key=("by-name", tag, k, key2), kind="topo-by-name", station=role)
+                rg, hz = float(ref["range"]), max(float(ref["horiz"]), 1e-30)
+                if not (abs(float(t.r) - rg) <= 1e-6 + 2e-15 * rg + 4e-9 and abs(float(t.phi) - float(ref["el"])) <= 1e-10 + 5e-8 + 4e-9 / rg
+                        and (hz / rg <= 1e-7 or angdiff(-float(t.theta), ref["az"]) <= 1e-10 + 4e-9 / hz)):
+                    out.fail("topo-by-name", "copy(frame=<name of the station>) differs from ENU at the last coordinates created under that name",
+                             dict(inp_s, target_itrf=r + v, date=str(date)), observed=[float(t.r), -float(t.theta), float(t.phi)], expected=[rg, float(ref["az"]), float(ref["el"])])
+                for fl in out.failures[n0:]:
+                    if role != "created-once" and not fl["family"].startswith("station-ellipsoid-radius"):
+                        fl["family"] += "-station-" + role
+                        fl["what"] += f" — station '{key2}' {role.replace('-', ' ')} (history of creations under re-used names)"
+                if len(out.failures) > n0:
+                    return
+    finally:
+        for st in objs:
+            drop_station(st)
+
+
 def check_wgs84(out, st, inp_s, a, f, lat, lon, alt, date):
     """the ellipsoid is WGS-84 (property text): a = 6378137 m, 1/f = 298.257223563"""
     from beyond.orbits import StateVector
@@ -935,13 +1071,28 @@ def check_wgs84(out, st, inp_s, a, f, lat, lon, alt, date):
 
 
 def oracle(ctx, widened):
+    """a harness error must never hide a violation: when a later part of the sweep raises (a changed library may raise anywhere) the
+    failing inputs found so far are reported; when none was found — other than those of the open known findings — the exception propagates
+    (infrastructure error, exit 2)"""
+    out = Outcome()
+    try:
+        return _oracle(ctx, widened, out)
+    except Exception as e:  # noqa: BLE001
+        known = core.load_known()
+        if all(core.match_known(ID, fl, known) is not None for fl in out.failures):
+            raise           # nothing new was found before the exception: an infrastructure error, not a verdict
+        import traceback
+        out.notes.append("oracle sweep interrupted by " + repr(e) + " at " + traceback.format_exc().strip().split("\n")[-3].strip())
+        return out
+
+
+def _oracle(ctx, widened, out):
     import numpy as np
     from beyond.constants import Earth
     from beyond.dates import Date, timedelta
     from beyond.orbits import StateVector
     from beyond.utils.measures import Range, Azimut, Elevation, Doppler
     _setup()
-    out = Outcome()
     rng = ctx.rng
     big = widened or ctx.thorough
     a, f = float(Earth.r), float(Earth.f)
@@ -1012,6 +1163,14 @@ def oracle(ctx, widened):
         for _ in range(12 if big else 3):
             lat_d, lon_d, alt, _sk = gen_station(rng)
             check_coords_kind(out, kind, lat_d, lon_d, alt, a, f)
+    # --- a longitude and the same longitude plus whole turns (signed / 0..360 east conventions) are the same station
+    for _ in range(60 if big else 8):
+        lat_d, lon_d, alt, _sk = gen_station(rng)
+        check_longitude_turns(out, rng, lat_d, rng.uniform(-180, 180), alt, a, f)
+    # --- names: stations re-created under a name already in use, at other / at the same coordinates, names interleaved
+    for i in range(120 if big else 10):
+        scenario, history = gen_name_history(rng, ["other-coordinates", "same-coordinates", "interleaved"][i] if i < 3 else None)
+        check_name_history(out, rng, a, f, d0 + timedelta(seconds=rng.uniform(0, 4e7)), history, scenario)
     # --- equatorial=True: same place, axes of EME2000
     for _ in range(40 if big else 6):
         lat_d, lon_d, alt, _sk = gen_station(rng)
@@ -1044,7 +1203,7 @@ def oracle(ctx, widened):
     out.sample({"checks": "ellipsoid membership + normal, position formula, rest in ITRF/PEF/TIRF, omega x r in TOD/CIRF, finite-difference velocity in inertial frames, "
                           "range/elevation/azimuth/range-rate/axes vs extended-precision ENU, the four measures, inertial targets, WGS-84 constants, mask vs np.interp "
                           "(table assigned / given at creation as list, tuple, rows of arrays ... through create_station or TopocentricFrame / re-assigned / written in place), "
-                          "parent_frame WGS84 / ITRF / PEF / TIRF, equatorial=True"})
+                          "parent_frame WGS84 / ITRF / PEF / TIRF, equatorial=True, longitudes plus whole turns, stations re-created under names in use"})
     return out
 
 
@@ -1471,6 +1630,24 @@ def _cmp(out, family, what, inp, real, model_line, tols, angles=(), skip=()):
     return True
 
 
+def topo_tolerances(cart, sph, r, v):
+    """absolute tolerances for the 6 cartesian + 6 spherical station-frame components (beyond vs compiled model), the indices not
+    compared (exactly at the zenith theta and the angular rates are 0/0), and the quantities they were built from"""
+    import numpy as np
+    rg = float(sph[0])
+    hz = max(math.hypot(cart[0], cart[1]), 1e-300)
+    sp = float(np.linalg.norm(v))
+    # position noise (cancellation r - s, inverse vs transpose); r - cart has the length of the station's own position vector
+    dl = 2e-8 + 4e-15 * float(np.linalg.norm(r)) + 4e-15 * max(0.0, float(np.linalg.norm(r)) + float(sph[0]) - 1.4e7)
+    dv = 1e-15 + 4e-15 * sp
+    cosel = hz / rg
+    tol_el = 1e-12 + min(4e-16 / max(cosel, 1e-300), 5e-8) + dl / rg * 2
+    tols = [dl] * 3 + [dv] * 3 + [dl, 1e-12 + 2 * dl / hz, tol_el, dv + 2 * dl * sp / rg + 1e-12 * sp,
+                                  (1e-12 + 4 * dl / hz) * sp / hz + 1e-18, (1e-12 + 4 * dl / hz) * sp * (1 / hz + 1 / rg) + 1e-18]
+    skip = (7, 10, 11) if hz < 1e-6 else ()
+    return tols, skip, dl, sp, rg, hz
+
+
 def correspondence(ctx):
     import numpy as np
     from beyond.constants import Earth
@@ -1512,17 +1689,18 @@ def correspondence(ctx):
         if parent != "default" or mgiven is not None:
             inp_s.update(parent=parent, mask_given=None if mgiven is None else [mgiven[0], list(mgiven[1]), list(mgiven[2])], entry=entry)
         degs = [f2b(lat_d), f2b(lon_d), f2b(alt_d)]
+        ptol = 2e-8 + 8e-15 * max(0.0, abs(alt_d) - 1e4)        # double rounding at the length of the position vector (stations far above the ground)
         # create_station itself: position of the centre link and orientation matrix from the coordinates as given
         req = " ".join(["c11create"] + degs)
         created = [float(c) for c in st.center.offset[:3]] + [float(c) for c in np.array(st.orientation._m).flatten()] + [lat, lon, alt]
-        add(req, lambda rep, real=created, i=inp_s: _cmp(out, "create", "create_station (centre offset, orientation matrix, stored radians)", i, real, rep,
-                                                          [2e-8] * 3 + [1e-14] * 9 + [1e-15, 2e-15, 0.0]))
+        add(req, lambda rep, real=created, i=inp_s, ptol=ptol, lon_d=lon_d: _cmp(out, "create", "create_station (centre offset, orientation matrix, stored radians)", i, real, rep,
+                                                          [ptol] * 3 + [1e-14] * 9 + [1e-15, 2e-15 * max(1.0, abs(lon_d) / 360), 0.0]))
         out.count(key=req, kind="create", station=skind, coords=ckind, parent=parent, mask_given="no" if mgiven is None else mgiven[0], entry=entry if mgiven else "-")
         date = date0 + timedelta(seconds=rng.uniform(0, 3e7))
         g = TopocentricFrame._geodetic_to_cartesian(lat, lon, alt)
         spos = [float(c) for c in g[:3]]
         req = " ".join(["c11geo", f2b(lat), f2b(lon), f2b(alt)])
-        add(req, lambda rep, g=g, i=inp_s: _cmp(out, "geo", "_geodetic_to_cartesian", i, list(g[:3]), rep, [2e-8] * 3))
+        add(req, lambda rep, g=g, i=inp_s, ptol=ptol: _cmp(out, "geo", "_geodetic_to_cartesian", i, list(g[:3]), rep, [ptol] * 3))
         out.count(key=req, kind="geo", station=skind)
         req = " ".join(["c11topom", f2b(lat), f2b(lon)])
         m = np.array(st.orientation._m)
@@ -1533,7 +1711,7 @@ def correspondence(ctx):
         for loc in ([0.0] * 6, [rng.uniform(-1e5, 1e5) for _ in range(3)] + [rng.uniform(-100, 100) for _ in range(3)]):
             real = np.array(StateVector(loc, date, "cartesian", st).copy(frame=pframe))
             req = " ".join(["c11back"] + degs + [f2b(c) for c in loc])
-            add(req, lambda rep, real=real, i=dict(inp_s, state=loc): _cmp(out, "back", "station frame -> parent frame", i, list(real), rep, [2e-8] * 3 + [1e-12] * 3))
+            add(req, lambda rep, real=real, i=dict(inp_s, state=loc), ptol=ptol: _cmp(out, "back", "station frame -> parent frame", i, list(real), rep, [ptol] * 3 + [1e-12] * 3))
             out.count(key=req, kind="back", nontrivial=any(loc))
         for _ in range(n_tg):
             r, v, tkind = gen_target(rng, spos, up)
@@ -1542,18 +1720,8 @@ def correspondence(ctx):
             cart = np.array(sv.copy(frame=st, form="cartesian"))
             sph = np.array(sv.copy(frame=st, form="spherical"))
             req = " ".join(["c11topo"] + degs + [f2b(c) for c in x])
-            rg = float(sph[0])
-            hz = max(math.hypot(cart[0], cart[1]), 1e-300)
-            sp = float(np.linalg.norm(v))
-            dl = 2e-8 + 4e-15 * float(np.linalg.norm(r))       # position noise (cancellation r - s, inverse vs transpose)
-            dv = 1e-15 + 4e-15 * sp
-            cosel = hz / rg
-            tol_el = 1e-12 + min(4e-16 / max(cosel, 1e-300), 5e-8) + dl / rg * 2
-            tols = [dl] * 3 + [dv] * 3 + [dl, 1e-12 + 2 * dl / hz, tol_el, dv + 2 * dl * sp / rg + 1e-12 * sp,
-                                          (1e-12 + 4 * dl / hz) * sp / hz + 1e-18, (1e-12 + 4 * dl / hz) * sp * (1 / hz + 1 / rg) + 1e-18]
+            tols, skip, dl, sp, rg, hz = topo_tolerances(cart, sph, r, v)
             inp = dict(inp_s, target_itrf=x)
-            # exactly at the zenith (horizontal distance below a micrometre) theta and the angular rates are 0/0: not compared
-            skip = (7, 10, 11) if hz < 1e-6 else ()
             add(req, lambda rep, real=list(cart) + list(sph), i=inp, t=tols, sk=skip: _cmp(out, "topo", "copy(frame=station)", i, real, rep, t, angles=(7,), skip=sk))
             out.count(key=req, kind="topo", zenith_singular=bool(skip), target=tkind, station=skind, theta_quadrant=int((float(sph[1]) % TWO_PI) // (math.pi / 2)), above=bool(sph[2] > 0))
             if rng.random() < 0.5:
@@ -1614,6 +1782,69 @@ def correspondence(ctx):
             add(req, lambda rep, got=got, inp={"azimuths": az, "elevations": el, "azim": x}: mask_check(rep, got, inp))
             out.count(key=req, kind="mask-" + akind, table=mkind, npoints=len(az), nontrivial=akind in ("random", "wrap-segment", "hit-shifted"))
     drop_station(st)
+    # station names: creations and RE-creations under a small pool of names, each followed by uses of every name — through the object returned by
+    # create_station or through the name itself — vs the registry model `regRun` (a name stands for the coordinates of its last creation)
+    from beyond.errors import UnknownFrameError
+
+    def reg_check(rep, real, inp):
+        reps = rep.split()
+        if len(reps) != len(real):
+            out.fail("names", "model returned a different number of replies: " + rep[:80], inp, observed=len(real), expected=len(reps))
+            return
+        for j, (mv, (rv, tols, skip, use)) in enumerate(zip(reps, real)):
+            if isinstance(rv, str) or mv == "unknown":
+                if rv != mv:
+                    out.fail("names-unknown", "a name is known to beyond and not to the registry model (or conversely)", dict(inp, use=use), observed=rv if isinstance(rv, str) else "a frame", expected=mv)
+                    return
+                continue
+            if not _cmp(out, "names", f"use {j} of the history (station '{use[0]}', last created at {use[1]}): copy(frame=station)", dict(inp, use=use), rv,
+                        " ".join(mv.split(",")), tols, angles=(7,), skip=skip):
+                return
+
+    for i in range(ctx.n(24, 500)):
+        scenario, history = gen_name_history(rng, ["other-coordinates", "same-coordinates", "interleaved"][i] if i < 3 else None)
+        tag = f"C11r{next(_counter)}"
+        date = date0 + timedelta(seconds=rng.uniform(0, 3e7))
+        toks, real, objs, live = ["c11reg"], [], [], {}
+        if rng.random() < 0.3:
+            x = [rng.uniform(-1, 1) * 7e6 for _ in range(3)] + [0.0, 0.0, 0.0]
+            try:
+                StateVector(x, date, "cartesian", "ITRF").copy(frame=tag + "X")
+                real.append(("a frame", None, None, ["X", None]))
+            except UnknownFrameError:
+                real.append(("unknown", None, None, ["X", None]))
+            toks += ["U", "X"] + [f2b(c) for c in x]
+        broken_off = False
+        for key, lat_d, lon_d, alt in history:
+            try:
+                stn = new_station(lat_d, lon_d, alt, name=tag + key)
+            except Exception as e:  # noqa: BLE001
+                out.fail("names-creation-raises", "create_station raises", {"history": history, "scenario": scenario}, observed=repr(e), expected="a station")
+                broken_off = True
+                break
+            objs.append(stn)
+            live[key] = (stn, [lat_d, lon_d, alt])
+            toks += ["C", key] + [f2b(c) for c in stn.c11_deg]
+            for key2, (st2, co2) in live.items():
+                g = TopocentricFrame._geodetic_to_cartesian(math.radians(co2[0]), math.radians(co2[1]), co2[2])
+                m2 = np.array(st2.orientation._m)
+                for how in ("object", "name"):
+                    r, v, tkind = gen_target(rng, [float(c) for c in g[:3]], [float(c) for c in m2[:, 2]])
+                    sv = StateVector(r + v, date, "cartesian", "ITRF")
+                    fr = st2 if how == "object" else tag + key2
+                    cart = np.array(sv.copy(frame=fr, form="cartesian"))
+                    sph = np.array(sv.copy(frame=fr, form="spherical"))
+                    tols, skip, *_ = topo_tolerances(cart, sph, r, v)
+                    real.append((list(cart) + list(sph), tols, skip, [key2, co2, how, r + v]))
+                    toks += ["U", key2] + [f2b(c) for c in r + v]
+                    out.tally(f"names-use={how}:{'recreated' if sum(1 for h in history[:len(objs)] if h[0] == key2) > 1 else 'created-once'}")
+        for stn in objs:
+            drop_station(stn)
+        if broken_off:
+            continue
+        req = " ".join(toks)
+        add(req, lambda rep, real=real, inp={"history": history, "scenario": scenario}: reg_check(rep, real, inp))
+        out.count(key=req, kind="names", scenario=scenario, creations=len(history))
     # the life of station.mask: handed over at creation (every kind of object, every entry point), assigned, cleared, written in place, read —
     # the real object against the state machine `stationMaskRun` (constructor path translated from the source)
     agree = [0, 0]
@@ -1699,7 +1930,7 @@ def correspondence(ctx):
     replies = core.Driver(ID).run(reqs)
     for req, fn, rep in zip(reqs, checks, replies):
         fn(rep)
-        if req.split()[0] in ("c11topo", "c11mask", "c11meas", "c11maskrun"):
+        if req.split()[0] in ("c11topo", "c11mask", "c11meas", "c11maskrun", "c11reg"):
             out.sample({"request": req[:100] + "…", "model": rep[:80]}, limit=3)
     out.notes.append(f"get_mask: {exact[1]} of {exact[0]} values bit-identical between numpy and the compiled model")
     out.notes.append(f"mask life: {agree[1]} of {agree[0]} replies of real station objects agree with the state machine")
@@ -1723,12 +1954,17 @@ def replay(failure):
     date = Date(2021, 3, 4, 5, 6, 7)
     if fam.startswith("mask-") and isinstance(inp, dict) and "okind" in inp and "given" in inp:
         # a mask handed over at creation, then a history of operations: the recorded history is run again on a fresh station
-        import random
         check_mask_given(out, random.Random(0), inp["okind"], inp["entry"], inp["given"][0], inp["given"][1], [tuple(o) for o in inp.get("ops", [])],
                          parent=inp.get("parent", "default"), equatorial=bool(inp.get("equatorial", False)))
         return out
+    if isinstance(inp, dict) and "history" in inp:
+        check_name_history(out, random.Random(0), a, f, date, inp["history"], "replay", n_tg=12)
+        return out
+    if fam.startswith("station-longitude-turns") and isinstance(inp, dict):
+        lat_d, lon2, alt = inp["latlonalt_deg_m"]
+        check_longitude_turns(out, random.Random(0), lat_d, inp.get("same_as_longitude", lon2), alt, a, f)
+        return out
     if fam.startswith("station-equatorial") and isinstance(inp, dict):
-        import random
         check_equatorial(out, random.Random(0), *inp["latlonalt_deg_m"], a, f, date, inp.get("parent", "default"))
         return out
     if fam.startswith("mask-interp") and isinstance(inp, dict) and "azimuths" in inp:
